@@ -75,6 +75,9 @@ type Program struct {
 	// MsgCtx: published messages carry a context of their own: already cancelled, cancelled a few scheduling steps after
 	// Publish was called, or live. GoChannel documents no dependence on it: deliveries get the subscription's context.
 	MsgCtx bool
+	// NilMetadata: messages for which no metadata was drawn are built as struct literals with a nil Metadata map
+	// (legal: "&message.Message{}" is supported) instead of with NewMessage
+	NilMetadata bool
 	// SharedDecorator: all decorated subscriptions of the run (and all levels of one stack) are made by ONE
 	// SubscriberDecorator value instead of a fresh one per subscriber
 	SharedDecorator bool
@@ -95,6 +98,9 @@ func (r *Run) newMessage(id string, payload []byte) *message.Message {
 		m := message.NewMessage(r.ID+"/same-uuid", payload)
 		m.Metadata.Set(IDKey, id)
 		return m
+	}
+	if r.Prog.NilMetadata {
+		return &message.Message{UUID: id, Payload: payload}
 	}
 	return message.NewMessage(id, payload)
 }
@@ -172,11 +178,13 @@ func (s *SubRec) Dels() []Delivery {
 
 // Run is the recorded execution.
 type Run struct {
-	sharedDec message.SubscriberDecorator
-	Prog      Program
-	ID        string
-	PS        *gochannel.GoChannel
-	Sub       message.Subscriber // PS possibly wrapped per subscription
+	NilMetaPublished atomic.Int64 // messages handed to Publish with a nil Metadata map
+	NilMetaDelivered atomic.Int64 // received copies whose Metadata map was nil
+	sharedDec        message.SubscriberDecorator
+	Prog             Program
+	ID               string
+	PS               *gochannel.GoChannel
+	Sub              message.Subscriber // PS possibly wrapped per subscription
 
 	mu                sync.Mutex
 	Pubs              []*PubRec
@@ -403,6 +411,9 @@ func (r *Run) consume(s *SubRec, seed uint64) {
 	defer s.consumers.Done()
 	sp := s.Spec
 	for msg := range s.ch {
+		if msg.Metadata == nil {
+			r.NilMetaDelivered.Add(1)
+		}
 		d := &Delivery{Sub: s.ID, UUID: identity(msg), Msg: msg}
 		s.mu.Lock()
 		// sample the context first, then the cancel flags (sound direction: a flag set before cancel() is seen here)
@@ -454,7 +465,19 @@ func (r *Run) consume(s *SubRec, seed uint64) {
 			}
 		}
 		if sp.Mutate {
-			msg.Metadata.Set("mutated-by", s.CtxVal)
+			mutated := false
+			func() {
+				defer func() {
+					if v := recover(); v != nil {
+						r.panicked("editing the metadata of a received copy", v)
+					}
+				}()
+				msg.Metadata.Set("mutated-by", s.CtxVal)
+				mutated = true
+			}()
+			if !mutated {
+				msg.Metadata = message.Metadata{}
+			}
 			for k := range msg.Metadata {
 				if k != "mutated-by" {
 					delete(msg.Metadata, k)
@@ -507,6 +530,9 @@ func (r *Run) publisher(pi int, ps PubSpec, rr *vlib.Rand) {
 			uuid := fmt.Sprintf("%s/t%d/p%d/%d", r.ID, ps.Topic, pi, n)
 			m := r.newMessage(uuid, rr.Payload(r.Prog.PayloadSz))
 			for k := rr.Intn(r.Prog.MetaKeys + 1); k > 0; k-- {
+				if m.Metadata == nil {
+					m.Metadata = message.Metadata{}
+				}
 				m.Metadata.Set(fmt.Sprintf("k%d", rr.Intn(4)), rr.UTF8(6))
 			}
 			if r.Prog.MsgCtx {
@@ -527,6 +553,9 @@ func (r *Run) publisher(pi int, ps PubSpec, rr *vlib.Rand) {
 					_ = cancel // stays live
 				}
 			}
+			if m.Metadata == nil {
+				r.NilMetaPublished.Add(1)
+			}
 			rec := &PubRec{Pub: pi, Topic: ps.Topic, UUID: uuid, Orig: m, OrigSnap: vlib.Snap(m), CallNo: call}
 			recs = append(recs, rec)
 			msgs = append(msgs, m)
@@ -535,6 +564,9 @@ func (r *Run) publisher(pi int, ps PubSpec, rr *vlib.Rand) {
 		r.doPublish(ps.Topic, recs, msgs)
 		if r.Prog.EditAfterPublish {
 			for _, m := range msgs {
+				if m.Metadata == nil {
+					m.Metadata = message.Metadata{}
+				}
 				m.Metadata.Set("edited-after-publish", "yes")
 				delete(m.Metadata, "k0")
 			}
